@@ -366,6 +366,29 @@ def cmd_check(pid, tier):
                 guard_msgs.append("canary in %s did NOT fail: precondition/axioms may be contradictory" % rg.id)
                 undecided.append({"unit": u, "reason": "vacuity: canary assert(false) verified in " + rg.id})
 
+    # ---- bounded stand-in (Kani) where the code is outside the Verus subset
+    kani_res = None
+    kcfg = pcfg.get("kani")
+    if kcfg:
+        from . import kanirun
+        bound = kcfg["bound_thorough"] if tier == "thorough" else kcfg["bound_quick"]
+        kani_res = kanirun.run(repo_root(), kcfg["harnesses"], bound, kcfg.get("timeout_s", 3000), tag=pid.lower())
+        comp = kani_res.get("complete")
+        if comp and comp[1] == 0 and comp[0] == len(kcfg["harnesses"]):
+            pass
+        elif kani_res["failed_checks"] and comp and comp[1] > 0:
+            failing = [h for h, v in kani_res["harnesses"].items() if v == "FAILED"]
+            pb = kanirun.run(repo_root(), [h.split("::")[-1] for h in failing[:1]], bound, kcfg.get("timeout_s", 3000), tag=pid.lower(), playback=True)
+            kani_res["playback"] = pb.get("playback")
+            kani_res["playback_tail"] = pb.get("tail")
+            for chk in sorted(set(kani_res["failed_checks"])):
+                violations.append(("kani", {"region": None, "fn": ",".join(failing), "fragment": "kani/in_attributes.rs", "kind": "bounded check failed",
+                                            "clause": chk, "site": None, "label": "kani::%s::%s" % (",".join(x.split("::")[-1] for x in failing), chk),
+                                            "line": 0, "rendered": kani_res["tail"], "playback": kani_res.get("playback")}))
+        else:
+            undecided.append({"unit": "kani", "reason": "Kani did not finish (timeout=%s oom=%s rc=%s): %s" % (
+                kani_res.get("timed_out"), kani_res.get("oom"), kani_res.get("rc"), kani_res["tail"][-600:])})
+
     wall = time.monotonic() - t0
     # ---- report
     rc = 0
@@ -391,7 +414,10 @@ def cmd_check(pid, tier):
                 "region_status": rg.status if rg is not None else None,
                 "changes_vs_contract_base": rg.changes if rg is not None else None,
                 "verus_output": f["rendered"],
-                "generated_file": results[u]["path"], "generated_line": f["line"]})
+                "generated_file": results[u]["path"] if u in results else None, "generated_line": f["line"],
+                "concrete_playback": f.get("playback")})
+            if f.get("playback"):
+                rep["concrete_input"] = f["playback"]
         refuted = None
         try:
             from . import refute
@@ -400,7 +426,7 @@ def cmd_check(pid, tier):
             rep["refuter_error"] = repr(e)
         with open(replay_path, "w") as fh:
             json.dump(rep, fh, indent=1)
-        suffix = "" if refuted else " no-failing-input-found"
+        suffix = "" if (refuted or rep.get("concrete_input")) else " no-failing-input-found"
         for (u, f) in violations:
             print("  failed obligation: %s (unit %s)" % (f["label"], u))
         print("VIOLATION property=%s replay=%s%s" % (pid, replay_path, suffix))
@@ -457,7 +483,9 @@ def cmd_check(pid, tier):
             "failures_of_other_properties_in_shared_units": [f["label"] for f in foreign],
             "backend": "Verus %s (Z3 bundled)" % (next(iter(results.values())).get("verus", {}).get("version", "?") if results else "?"),
             "solver_time_ms": sum((r.get("smt_ms") or 0) for r in results.values()),
-            "bounded_units": pcfg.get("bounded_units", []),
+            "bounded_units": ([{"tool": "Kani 0.68 / CBMC 6.11", "harnesses": kcfg["harnesses"], "bound": "slice length <= %d, all 256 byte values, arbitrary iterator state, <= 1 previous key" % kani_res["bound"],
+                                "cmd": kani_res["cmd"], "complete": kani_res.get("complete"), "cbmc_seconds": kani_res.get("cbmc_seconds"), "wall_s": round(kani_res["wall"], 1),
+                                "note": "bounded: never counted as proved"}] if kani_res else []),
             "extra_checks": extra_results,
             "cached_units": [u for u in units if results[u].get("cached")],
             "repo": repo_root(),
